@@ -210,7 +210,7 @@ package main
 // The temp name starts with "tmp" and therefore can never be listed by IndexTo
 // (lemma tmpNamesNeverMatch).  No other effectful call is permitted.
 //@ func UnixVolume.WriteBlock property C02 safety -bounds
-//@   only calls: UnixVolume.IsFull UnixVolume.blockDir UnixVolume.blockPath os.MkdirAll osWithStats.TempFile UnixVolume.lock UnixVolume.unlock io.Copy os.File.Close os.Chtimes osWithStats.Rename osWithStats.Remove ioStats.TickOutBytes statsTicker.TickOps statsTicker.Tick
+//@   only calls: UnixVolume.IsFull UnixVolume.blockDir UnixVolume.blockPath os.MkdirAll osWithStats.TempFile UnixVolume.lock UnixVolume.unlock io.Copy os.File.Close os.Chtimes osWithStats.Rename osWithStats.Remove statsTicker.TickOutBytes statsTicker.TickOps statsTicker.Tick
 //@   ghost copied bool = false
 //@   ghost closed bool = false
 //@   ghost stamped bool = false
